@@ -184,6 +184,10 @@ def acceptable(c, name):
     return {name, name + "@flagsfirst"} if c["sym"][0] == "M" else {name}
 
 
+DIAG_NAMES = {"E": "nothing", "L": "exactly the line main.rs logs for the library's error", "L+": "other lines and then the line for the library's error",
+              "1": "one other ERROR line", "C": "one `Error: ..` line", "U": "clap's usage error", "?": "something else", "-": "n/a"}
+
+
 def kept_all(a):
     return set(a.get("kept", "-").split("+")) - {"-"}
 
@@ -221,14 +225,23 @@ class C20(PropBase):
         "selection, effect order, exit status); tied to the binary by the correspondence run",
         "extraction ExtrOcamlBasic only; ocaml/c20/main.ml; harness/src/bin/c20.rs (spawns the binary, calls the public printers; "
         "its print_minidump_dump is a copy of main.rs's call sequence)",
-        "clap 4.5 (parsing, --help/--version, usage errors), std::process::exit, tokio main, tracing-subscriber: exercised, not modelled",
+        "C20/Clap.v: hand-written model of clap 4.5's parser for a flat derive command without short options (token order, --, "
+        "--name=value, exact names, once-only flags and options, value parsers String / PathBuf / u64 / possible values with "
+        "ignore_case, help and version ending the parse where they stand, group conflict and required positional afterwards) and of "
+        "tracing_core::LevelFilter::from_str; interpreted over the table translate/c20_cli.py regenerates from struct Cli; tied to the "
+        "binary by ~300 raw argument vectors per run",
+        "translate/c20_cli.py (regexes over `#[derive(Parser)] struct Cli`: every field, its #[arg(..)] keys - aborts on an unknown key, "
+        "a short option, an alias, a new field type, a second parser - the ArgGroup, the defaults, the --features match arms, "
+        "`let cli = Cli::parse();` as the first statement of main_result)",
+        "std::process::exit, tokio main, tracing-subscriber, what clap prints for help / version / usage errors: exercised, not modelled",
         "translate/c20_wiring.py (regexes over main_result: the three File::create sites and the absence of any other file API, every "
         "occurrence of symbols_paths / symbols_cache / symbols_tmp / timeout / cli.symbols_url / options); std's documentation that "
         "File::create = write + create + truncate; Sinks.v's write-at-cursor semantics of a regular file",
     ]
     assumptions = [
-        "partial: what the printers write, clap's tokenisation, process exit, the panic hook, colouring and the interactive "
-        "progress display are runtime behaviour exercised by the run, not covered by the theorems",
+        "partial: what the printers write, process exit, the panic hook, colouring and the interactive "
+        "progress display are runtime behaviour exercised by the run, not covered by the theorems; clap's parser is modelled for "
+        "UTF-8 argument vectors (no short options, no abbreviations, no environment variables, no response files)",
         "--use-local-debuginfo: DebugInfoSymbolProvider cannot be built in the harness; on x86-64 / arm64 dumps the report is checked "
         "for status, presence and --output-file = stdout only (exact equality on every other CPU, where the flag is a no-op)",
         "--symbols-url is exercised against the harness's loopback server only; log-file writes are not modelled",
@@ -261,15 +274,28 @@ class C20(PropBase):
                 "(c20_every_sink_truncates, c20_wiring_pinned: regenerated from main.rs); argv -> symbol supplier: every --symbols-path "
                 "value then every positional path, each in command-line order, the URLs in command-line order, nothing dropped or "
                 "reordered, first path that has the module wins, HTTP supplier iff a URL is given, cache/tmp/timeout and their defaults "
-                "(c20_symbol_paths_in_given_order, c20_same_style_order_preserved, c20_first_given_path_wins, c20_supplier_kind). The built minidump-stackwalk binary is run over the option matrix x inputs "
+                "(c20_symbol_paths_in_given_order, c20_same_style_order_preserved, c20_first_given_path_wins, c20_supplier_kind); "
+                "from the ARGUMENT VECTOR to main(): a model of clap's parser over the grammar table regenerated from struct Cli "
+                "(Gen/C20Cli.v) - for every argument vector and environment the run is a usage error (status 2, one message, no sink "
+                "opened, no report byte), help / version (status 0, nothing opened, not even the --log-file) or main()'s run on the "
+                "parsed flag record (c20_argv_outcomes); every value the regenerated --features parser lets through has an arm in the "
+                "regenerated match, so unimplemented!() is unreachable, and LevelFilter::from_str(..).unwrap() never fails "
+                "(c20_features_value_never_unimplemented, c20_verbose_value_never_unwraps; with ignore_case the statement no longer "
+                "holds: c20_ignore_case_reaches_default_arm); never by panic from any argument vector (c20_argv_never_panics; 101 only "
+                "through --help-markdown's expect); parsed values went through their value parser, a flag / single-valued option "
+                "given twice is a usage error (c20_parsed_values_validated, c20_single_options_at_most_once); every sink is opened "
+                "before the first report byte in every mode, so an uncreatable --log-file / --cyborg / --output-file path means no "
+                "report byte anywhere (c20_sinks_opened_before_first_report_byte, c20_uncreatable_sink_no_report; the translator pins "
+                "that no File::create follows a printer call). The built minidump-stackwalk binary is run over the option matrix x inputs "
                 "(testdata, synthesized, mutated, truncated, missing, empty, directory) and compared byte for byte with the "
                 "library called in-process (print / print_brief / print_json / the dump printers) and with the model's "
                 "prediction; an independent oracle re-checks the property on exit status, stdout, stderr and the files.",
-        "note": "partial: clap's parsing, process exit, the panic hook, terminal colouring and the progress display are runtime "
-                "behaviour — exercised on the real binary, not proved. Trusted: Coq kernel; hand-written model of main.rs "
+        "note": "partial: process exit, the panic hook, terminal colouring, the progress display and the TEXT clap prints are runtime "
+                "behaviour — exercised on the real binary, not proved; clap's parser is a hand-written model (C20/Clap.v) over the regenerated "
+                "option table, compared with the binary on ~300 raw argument vectors per run. Trusted: Coq kernel; hand-written model of main.rs "
                 "(correspondence-checked); extraction + OCaml/Rust glue; translate/c20_dump_sequence.py (regexes tying the harness's copy of "
                 "print_minidump_dump to main.rs), translate/c20_wiring.py (regexes pinning the File::create sites, the flow of the symbol "
-                "path / URL / cache arguments and the options overrides; aborts on an OpenOptions, a sort, a new override). --use-local-debuginfo on x86-64/arm64 dumps is checked for status and presence only. No axioms.",
+                "path / URL / cache arguments and the options overrides; aborts on an OpenOptions, a sort, a new override, a File::create behind a printer call), translate/c20_cli.py (struct Cli -> option table; aborts on an unknown #[arg] key). --use-local-debuginfo on x86-64/arm64 dumps is checked for status and presence only. No axioms.",
     }
 
     # ------------------------------------------------------------------ the tool binary
@@ -855,8 +881,40 @@ class C20(PropBase):
         ctx["info"]["process_runs"] = sum(1 for answers in ctx["impl"].values() for x in answers if x)
         return vio
 
+    def compare_diag(self, c, a, dk, p_ld):
+        """WHAT the run says, on which channel: the model names the one diagnostic of the run (dk: 1 main's own rejection, 2 read
+        error, 3 processing error - all three through the logger; 4 main's `Error: <io error>` and 5 clap's usage error - straight
+        to standard error); the harness classifies the bytes of the log file and of standard error against the line main.rs
+        builds from the LIBRARY's error (`ERROR <name> - Error reading|processing dump: <err>`, computed in-process)."""
+        if "logc" not in a or a["exit"] == "101" or a["exit"].startswith("sig") or a["exit"] == "timeout" or c["lim"]:
+            return None
+        logger_on = c["verbose"] != "off"
+        # at the levels off / error nothing but main()'s fatal message is logged - except by the library's own error! calls
+        # (--evil-json, local debuginfo, a malformed Linux memory map in a mutated dump)
+        exact = c["verbose"] in ("e", "error", "off") and c["input"][0] in "FSX" and not c["evil"] and not c["ldi"]
+        want = {1: "1", 2: "L", 3: "L"}.get(dk) if logger_on else None
+        ok_logger = {want, "L+"} if (want == "L" and not exact) else {want}
+        logc, errc = a["logc"], a["errc"]
+        if c["log"] != "-":
+            if logc != "-" and "log" not in kept_all(a):
+                if want and p_ld == "1":
+                    if logc not in ok_logger:
+                        return "the log file holds %s, model: %s (diagnostic kind %d)" % (DIAG_NAMES.get(logc, logc), DIAG_NAMES[want], dk)
+                elif exact and logc != "E":
+                    return "the log file holds %s, model: nothing (no fatal diagnostic at level %s)" % (DIAG_NAMES.get(logc, logc), c["verbose"])
+            want_err = {4: "C", 5: "U"}.get(dk, "E" if exact else None)
+            if dk in (1, 2, 3) and p_ld != "1":
+                want_err = None
+        else:
+            want_err = {4: "C", 5: "U"}.get(dk, want if want else ("E" if exact else None))
+        if want_err is not None and errc != "-":
+            ok = ok_logger if (want_err == want and want is not None) else {want_err}
+            if errc not in ok:
+                return "standard error holds %s, model: %s (diagnostic kind %d)" % (DIAG_NAMES.get(errc, errc), DIAG_NAMES[want_err], dk)
+        return None
+
     def compare(self, c, a, pred):
-        p_exit, p_stdout, p_out, p_cy, p_log, p_sd, p_ld, p_rec, p_sym = pred
+        p_exit, p_stdout, p_out, p_cy, p_log, p_sd, p_ld, p_rec, p_sym, p_dk = pred
         winner = None
         if p_sym != "-":
             p_paths, p_urls, p_win = p_sym.split("/")
@@ -926,11 +984,9 @@ class C20(PropBase):
                 return "log file %s, model %s" % (a["log"], p_log)
             if p_ld == "1" and a["log"] in ("-", "0"):
                 return "no diagnostic in the log file, model: one"
-            # at the levels off / error the logger writes nothing but main()'s fatal diagnostic (the library's own error!
-            # calls: --evil-json, local debuginfo, a malformed Linux memory map in a mutated dump)
-            if p_ld == "0" and a["log"] not in ("-", "0") and c["verbose"] in ("e", "off", "error") and not c["evil"] and not c["ldi"] and \
-                    c["input"][0] in "FSX" and "log" not in kept_all(a):
-                return "the log file holds %s bytes, model: empty (no fatal diagnostic at level %s)" % (a["log"], c["verbose"])
+        bad = self.compare_diag(c, a, int(p_dk), p_ld)
+        if bad:
+            return bad
         if p_sd == "1" and a["stderr"] == "0":
             return "no diagnostic on standard error, model: one"
         return None
